@@ -193,6 +193,8 @@ func (g *gen) val(depth int, top bool) Val {
 		}
 	case x < 72:
 		return Val{K: g.pick([]string{"nilstringer", "nilerror", "typednilerr", "goerr"}), S: Str(g.payload())}
+	case x < 76:
+		return Val{K: "arrn", I: int64(g.r.Intn(1200))}
 	default:
 		if depth > g.maxDepth+1 {
 			return g.simple()
@@ -402,7 +404,7 @@ func (g *gen) simpleOp(depth int) Op {
 	return Op{K: "sprintf", F: Str(g.format(a)), A: a}
 }
 
-var opKindsC12 = []string{"sprint", "sprint", "sprintf", "sprintf", "sprintf", "sprintfn", "fprint", "fprintf", "errorf", "errorf", "builder", "join", "jointo", "swm"}
+var opKindsC12 = []string{"sprint", "sprint", "sprintf", "sprintf", "sprintf", "sprintfn", "fprint", "fprintf", "errorf", "errorf", "builder", "join", "jointo", "swm", "lateprobe"}
 
 // op generates one op of the general workload.
 func (g *gen) op(depth int) Op {
@@ -471,6 +473,8 @@ func (g *gen) op(depth int) Op {
 			v = Val{K: "ints", V: []Val{{K: "int", I: 4}, {K: "int", I: 5}, {K: "int", I: 6}}}
 		}
 		return Op{K: k, F: Str(g.redactableLit()), A: []Val{v}, Dst: g.safeScriptNoCtl(g.r.Intn(3))}
+	case "lateprobe":
+		return Op{K: "lateprobe", N: g.r.Intn(2)}
 	default: // swm
 		return Op{K: "swm", A: []Val{g.scripted("safefmt", depth)}}
 	}
@@ -545,6 +549,9 @@ func generate(prop string, seed int64, tier string) *Plan {
 	g := newGen(seed^int64(hashString(prop)&0xffff)<<32, tier)
 	p := &Plan{Prop: prop, Seed: seed, Tier: tier}
 	p.Cfg.Hook = g.chance(0.35)
+	if prop == "C12" && g.chance(0.5) {
+		p.Cfg.LateReg = 1 + int(seed%90000)
+	}
 	nt := []int{1, 2, 2, 3, 3, 4, 5, 8, 12, 16}[g.r.Intn(10)]
 	maxOps := []int{2, 4, 6, 10, 16}[g.r.Intn(5)]
 	if g.thorough && g.chance(0.2) {
